@@ -347,6 +347,38 @@ def end_flush_input_mode(prog, res):
     res.need(R, 4)
 
 
+def round_buffer_has_slack(prog, res):
+    """T11: the multithreaded input ring must hold the window (or the sections being filled) PLUS the slack sections, so that
+    when it wraps the range to reuse is already outside the LDM window / the oldest running job: capacity is
+    `MAX(windowSize, sectionsSize) + slackSize` - the slack is added outside the maximum.  With the slack inside the maximum a
+    large window swallows it, and ZSTDMT_waitForLdmComplete waits for a condition only the waiting thread could produce."""
+    R = "T11.round-buffer-slack"
+    if not prog.has_fn("ZSTDMT_initCStream_internal"):
+        return
+    f = prog.fn("ZSTDMT_initCStream_internal")
+    cap = [x for b, i, x in f.events(lambda y: y.get("k") == "asg") if strip_casts(x["lhs"]).get("f") == "capacity" and any(z.get("f") == "roundBuff" for z in walk(x["lhs"]))
+           and const_val(x["rhs"]) is None]
+    res.check(len(cap) >= 1, R, "site", f.loc, "round buffer capacity assigned", "round buffer capacity assignment not found")
+    for x in cap:
+        e = strip_casts(f.resolve_x(x["rhs"]))
+        if e is not None and e.get("k") == "ref":
+            d = f.single_def(e["n"])
+            e = strip_casts(f.resolve_x(d)) if d is not None else e
+        ok = False
+        if e is not None and e.get("k") == "bin" and e.get("op") == "+":
+            for mx, sl in ((e["lhs"], e["rhs"]), (e["rhs"], e["lhs"])):
+                mxn = strip_casts(f.resolve_x(mx))
+                slack_names = {y.get("n") for y in f.walk_resolved(sl) if y.get("k") == "ref"}
+                if mxn is not None and mxn.get("k") == "cond" and slack_names:
+                    inside = {y.get("n") for y in f.walk_resolved(mxn) if y.get("k") == "ref"}
+                    if not (slack_names & inside):
+                        ok = True
+        res.check(ok, R, "capacity-shape", f.loc, "capacity = MAX(window, sections) + slack, the slack outside the maximum",
+                  "the round buffer capacity no longer adds the slack sections on top of MAX(window, sections): with a window larger than the sections the "
+                  "ring has no slack and multithreaded LDM compression blocks forever when the ring wraps")
+    res.need(R, 2)
+
+
 def run(tier):
     res = Result("C10", tier)
     tus, info = extract(["compress", "decompress", "common"])
@@ -358,6 +390,7 @@ def run(tier):
     decoder_hints(prog, res)
     staging_buffer(prog, res)
     checksum_presence_governs_consumption(prog, res)
+    round_buffer_has_slack(prog, res)
     end_flush_input_mode(prog, res)
     sizes(prog, res)
     return res.finish(
